@@ -140,10 +140,11 @@ class SimSpec:
 class C05(SimSpec):
     prop = 'C05'
     cases = {'quick': 400, 'thorough': 6400}
-    rule = ("scenario strategy (feasible by construction; buffer modes roomy / serialising band; ~10% in-region "
-            "tiering probe); non-trivial = at least one observation start was refused by the capacity check "
-            "(buffer or machines) or one batch provisioning attempt was refused, and the run was judged against the bound; "
-            "distinct = distinct canonical scenario JSON")
+    rule = ("scenario strategy, feasible by construction: buffer modes roomy / serialising band / band-overlap, families crowd "
+            "(observations due together), limited (ingest limit binds), tight (begin and finish in one telescope pass), plans not in "
+            "start order, injected delays; ~10% in-region tiering probe (known findings); non-trivial = at least one observation "
+            "start was refused by the capacity check (buffer or machines) or one batch provisioning attempt was refused, and the run "
+            "was judged against the bound; distinct = distinct canonical scenario JSON")
 
     def strategy(self, tier):
         kw = self.gen_kwargs(tier)
@@ -436,10 +437,11 @@ def max_resident(tr):
 class C08(SimSpec):
     prop = 'C08'
     cases = {'quick': 400, 'thorough': 6400}
-    rule = ("scenarios with >= 2 observations (simultaneous / overlapping / back-to-back / gapped starts, array demands above and "
-            "below the total, ingest demands against the limit, roomy and serialising-band buffers, all shipped pairings); "
-            "non-trivial = at least one observation start was postponed AND at least one on-time start while the system was idle; "
-            "distinct = distinct canonical scenario JSON")
+    rule = ("scenarios with >= 2 observations (simultaneous / overlapping / back-to-back / gapped starts, plans not in start order, "
+            "array demands above and below the total, ingest demands against a binding limit, roomy / serialising-band / band-overlap "
+            "buffers, all shipped pairings); about 70% of the cases get an adaptive second run with one more small observation planned "
+            "for the step (-1..+2) at which the first run went completely idle; non-trivial = at least one observation start was "
+            "postponed AND at least one observation fell due while the system was idle; distinct = distinct canonical scenario JSON")
     level_text = ("exploration: at each begin_observation the shadow model must show: now >= planned start, enough free arrays, "
                   "enough free unreserved machines not already promised in this step, ingest limit respected, hot and cold room "
                   "for the whole volume; limits hold after every event; ingest holds exactly the demand from the start for the "
@@ -581,7 +583,8 @@ def ingest_end_orders(tr):
 class C12(SimSpec):
     prop = 'C12'
     cases = {'quick': 400, 'thorough': 6400}
-    rule = ("scenarios with >= 2 observations, all shipped pairings; non-trivial = at least two ingests overlapped in time "
+    rule = ("scenarios with >= 2 observations (mostly the overlap-friendly crowd family), all shipped pairings; every third case is also "
+            "run as start(k)+resume(T) and its table judged the same way; non-trivial = at least two ingests overlapped in time "
             "(classes report whether they ended in start order or reversed); every row of the per-timestep table is compared; "
             "distinct = distinct canonical scenario JSON")
     level_text = ("exploration: number of rows == number of simulated steps, index contiguous, and for every step t each listed "
